@@ -48,8 +48,12 @@ func algForKey(keyID string) string {
 	case strings.HasPrefix(keyID, "ec521"):
 		return "ES512"
 	// unsupported keys: the closest algorithm, so that a genuinely valid signature exists for it
-	case strings.HasPrefix(keyID, "rsa1024"):
+	case strings.HasPrefix(keyID, "rsa1024"), strings.HasPrefix(keyID, "rsa2056"), strings.HasPrefix(keyID, "rsa2560"):
 		return "PS256"
+	case strings.HasPrefix(keyID, "rsa3200"):
+		return "PS384"
+	case strings.HasPrefix(keyID, "rsa5120"):
+		return "PS512"
 	case strings.HasPrefix(keyID, "ec224"):
 		return "ES256"
 	case strings.HasPrefix(keyID, "ed"):
@@ -685,6 +689,11 @@ func jwsJobBytes(j jwsJob) []byte {
 	}
 	if strings.HasPrefix(j.keyID, "rsa") {
 		otherKey = strings.Replace(j.keyID, "-0", "-1", 1)
+		switch otherKey {
+		case "rsa1024-1", "rsa2048-1", "rsa3072-1", "rsa4096-1":
+		default:
+			otherKey = "rsa2048-1" // the odd sizes have one committed key each
+		}
 	}
 	ctx := &jwsCtx{id: id, scheme: j.scheme, st: baseTime().Add(-time.Minute), other: getIdentity(otherKey, 2)}
 	var exp *time.Time
@@ -805,7 +814,7 @@ func genJwsRead(r *Runner, prop string) {
 			if i >= jx {
 				continue
 			}
-			if quick && rng.Intn(3) != 0 {
+			if quick && !(identityMut(a.name) || identityMut(b.name)) && rng.Intn(3) != 0 {
 				continue
 			}
 			s := schemes[rng.Intn(2)]
